@@ -56,14 +56,30 @@ def class_tables():
     return order, types
 
 
-def shape(target, needles):
+EXACT = {
+    "prop:vRecur.to_ical": "result = []\nfor key, vals in self.sorted_items():\n    typ = self.types.get(key, vText)\n    if not isinstance(vals, SEQUENCE_TYPES):\n"
+                           "        vals = [vals]\n    vals = b','.join((typ(val).to_ical() for val in vals))\n    key = key.encode(DEFAULT_ENCODING)\n"
+                           "    result.append(key + b'=' + vals)\nreturn b';'.join(result)",
+    "prop:vRecur.from_ical": "if isinstance(ical, cls):\n    return ical\ntry:\n    recur = cls()\n    for pairs in ical.split(';'):\n        try:\n"
+                             "            key, vals = pairs.split('=')\n        except ValueError:\n            continue\n"
+                             "        recur[key] = cls.parse_type(key, vals)\n    return cls(recur)\nexcept ValueError:\n    raise\nexcept:\n"
+                             "    raise ValueError(f'Error in recurrence rule: {ical}')",
+    "prop:vRecur.parse_type": "parser = cls.types.get(key, vText)\nreturn [parser.from_ical(v) for v in values.split(',')]",
+}
+
+
+def shape(target, needles=None):
+    """the TRANSCRIBED loop structure is valid for exactly this statement list (ast.unparse of the real body, docstring stripped): a body
+    that only ADDS a statement is outside it as well (substring needles would let that through)"""
     mod, node = source.find(target)
     if node is None:
         return False, "function not found"
-    s = ast.unparse(node)
-    for n in needles:
-        if n not in s:
-            return False, f"no longer contains `{n}`"
+    got = "\n".join(ast.unparse(x) for x in source.strip_docstring(node.body))
+    want = EXACT[target]
+    if got != want:
+        gl, wl = got.split("\n"), want.split("\n")
+        i = next((k for k in range(min(len(gl), len(wl))) if gl[k] != wl[k]), min(len(gl), len(wl)))
+        return False, f"statement {i + 1} is `{(gl[i] if i < len(gl) else '<end>').strip()}`, transcribed `{(wl[i] if i < len(wl) else '<end>').strip()}`"
     return True, ""
 
 
